@@ -21,6 +21,10 @@ class SimDevice:
         self.linebuf = b""
         self.log = []              # (conn, verb, [plugs commanded])  ground truth
         self.answered = []         # (conn, verb, {plug: text sent})
+        self.want_close = set()    # connections this device wants to hang up on (mode "hangup")
+        self.hold = []             # [rounds_left, conn, bytes]: answers held back (mode "slowpong": the PING answer comes late)
+        self.owing = {}            # conn -> verb whose answer has not been emitted yet
+        self.interleaves = []      # (conn, verb owed, line received meanwhile): a second conversation started (C10)
 
     def feed(self, conn, data):
         """bytes the daemon wrote; returns bytes to emit back"""
@@ -28,8 +32,24 @@ class SimDevice:
         self.linebuf += data
         while b"\n" in self.linebuf:
             line, self.linebuf = self.linebuf.split(b"\n", 1)
-            out += self.handle(conn, line.decode("latin-1"))
+            text = line.decode("latin-1")
+            if conn in self.owing:
+                self.interleaves.append((conn, self.owing[conn], text))
+            ans = self.handle(conn, text)
+            if self.mode == "slowpong" and text.split(" ", 1)[0] == "PING" and ans:
+                self.hold.append([3, conn, ans]); self.owing[conn] = "PING"
+            else:
+                out += ans
         return out
+
+    def tick(self):
+        """called once per round: answers held back whose time has come -> [(conn, bytes)]"""
+        due = []
+        for h in self.hold:
+            h[0] -= 1
+        for h in [h for h in self.hold if h[0] <= 0]:
+            self.hold.remove(h); self.owing.pop(h[1], None); due.append((h[1], h[2]))
+        return due
 
     def handle(self, conn, line):
         w = line.split(" ", 1)
@@ -42,6 +62,10 @@ class SimDevice:
             return bytes(self.rng.randrange(256) for _ in range(self.rng.randint(1, 40)))
         if verb == "LOGIN":
             return b"ready\n"
+        if self.mode == "hangup":          # logs in, then drops the connection whenever it receives a command
+            self.log.append((conn, verb, self._targets(verb, arg), "hangup"))
+            self.want_close.add(conn)
+            return b""
         if verb == "LOGOUT":
             return b"bye\n"
         if verb == "PING":
@@ -161,6 +185,14 @@ class Session:
             out = self.devs[name].feed(conn, data)
             if out and self.conn_open.get(conn, True):
                 evs.append("IN %s %s" % (conn, hx(out)))
+            if conn in self.devs[name].want_close:
+                self.devs[name].want_close.discard(conn)
+                if self.conn_open.get(conn, True):
+                    evs.append("EOF %s" % conn)
+        for name, dv in self.devs.items():
+            for conn, out in dv.tick():
+                if self.conn_open.get(conn, True):
+                    evs.append("IN %s %s" % (conn, hx(out)))
         self._pending_rx = []
         return r, evs
 
